@@ -605,6 +605,8 @@ func c05jRun(line string, out *hx.Out) (string, bool) {
 		var shows []string
 		end := ""
 		reused := socket.NewMessage()
+		c05RetainStart()
+		defer c05RetainCheck(line, out, "c05:"+proto+":decoded-message-aliases-read-buffer")
 		for i := 0; ; i++ {
 			var got *M
 			var class string
